@@ -16,7 +16,7 @@ def run(run):
     proofs_ok = core.proof_stage(run, "Props/C16.v")
     tier_q = run.tier == "quick"
     cases = []
-    while len(cases) < (500 if tier_q else 8000):
+    while len(cases) < (500 if tier_q else 30000):
         c0 = lingen.case(run.rng)
         cases.append(c0)
         for _ in range(run.rng.choice([0, 2, 3])):          # further statements over the same catalogue, analysed one after the other in one process
